@@ -1511,7 +1511,7 @@ class Connection(object):
         if not keyspace or keyspace == self.keyspace:
             return
 
-        query = QueryMessage(query='USE "%s"' % (keyspace,),
+        query = QueryMessage(query='USE "%s"' % (keyspace.replace('"', '""'),),
                              consistency_level=ConsistencyLevel.ONE)
         try:
             result = self.wait_for_response(query)
@@ -1565,7 +1565,7 @@ class Connection(object):
             callback(self, None)
             return
 
-        query = QueryMessage(query='USE "%s"' % (keyspace,),
+        query = QueryMessage(query='USE "%s"' % (keyspace.replace('"', '""'),),
                              consistency_level=ConsistencyLevel.ONE)
 
         def process_result(result):
